@@ -302,8 +302,15 @@ def runBranch (T : Tables) (m : Mode) (c : Ctx) (b : Branch) (f : Form) : Except
   | .ok st => .ok { last := st.last, flags := st.flags }
   | .error e => .error e
 
+/-- `is_atom` itself converts the three coordinate columns with `float()` (in `_coordinates_are_unrealistic`) once the
+    name, the column count and the sfac column look like an atom: a non-numeric coordinate raises inside the test -/
+def atomTestRaises (T : Tables) (f : Form) : Bool :=
+  f.isAtomName T && f.spline.length ≥ T.atomMinCols &&
+    (match f.spline[1]? with | some k => !k.hasDot | none => false) && !allFloat ((f.spline.take 5).drop 2)
+
 /-- one iteration of the loop of `_parse_cards` on a non-blank line -/
 def stepLine (T : Tables) (m : Mode) (c : Ctx) (f : Form) : Except Err Ctx :=
+  if atomTestRaises T f then .error .ValueError else
   match selectBranch T f with
   | none => .ok c
   | some b => runBranch T m c b f
